@@ -57,6 +57,8 @@ communicate through a scoped variable and the identity order executes statements
             "probe.all_orders_fail",
             "probe.all_orders_rejected",
             "probe.debug_attributes_configured",
+            "probe.thousands_of_matches_in_progress",
+            "probe.chain_of_a_thousand_lazy_values",
             "probe.bare_wildcard_stanza",
             "probe.print_only_stanza",
             "probe.exhaustive_permutations",
@@ -184,6 +186,24 @@ fn groups(r: &mut Rng) -> (Vec<Stanza>, Vec<String>) {
             out.push(reader("(expression_statement) @es", "es"));
         }
     }
+    if r.chance(1, 5) {
+        // a scoped definition whose scope is a local that itself reads a scoped variable
+        out.push(st(
+            "(function_definition name: (identifier) @on) @of",
+            vec![Stmt::Let(VarRef::Scoped(cap("on"), "owner".into()), cap("of"))],
+        ));
+        out.push(st(
+            "(function_definition name: (identifier) @on2) @_of2",
+            vec![
+                Stmt::Let(VarRef::Local("fun".into()), sc("on2", "owner")),
+                Stmt::Node(VarRef::Scoped(Expr::Var("fun".into()), "fnode".into())),
+            ],
+        ));
+        out.push(st(
+            "(function_definition) @og",
+            vec![Stmt::AttrNode(sc("og", "fnode"), vec![("has".into(), Expr::Str("fnode".into()))])],
+        ));
+    }
     if r.chance(1, 6) {
         // a stanza whose query is the bare wildcard: in the merged query it follows directly
         // on the previous stanza's pattern
@@ -277,9 +297,68 @@ pub struct Case {
     pub debug: bool,
 }
 
+/// Rare, heavy cases: (a) two stanzas whose patterns pair up siblings of a node with dozens of
+/// children (thousands of matches in progress at once); (b) a chain of more than a thousand
+/// lazy values, each depending on the previous sibling's, read from its far end.
+fn heavy_case(seed: u64, r: &mut Rng) -> Case {
+    let mut prog = Prog::default();
+    let source;
+    let text = |c: &str| call("source-text", vec![cap(c)]);
+    if r.chance(1, 2) {
+        let n = r.range(40, 46);
+        source = (0..n).map(|i| format!("v{}\n", i)).collect::<String>();
+        prog.stanzas.push(st(
+            "(module (expression_statement (identifier) @a) (expression_statement (identifier) @b))",
+            vec![Stmt::Node(VarRef::Local("pn".into())), Stmt::AttrNode(Expr::Var("pn".into()), vec![("kind".into(), Expr::Str("pair".into())), ("fst".into(), text("a")), ("snd".into(), text("b"))])],
+        ));
+        prog.stanzas.push(st(
+            "(module (expression_statement (identifier) @x) (expression_statement (identifier) @y) (expression_statement (identifier) @z))",
+            vec![Stmt::Node(VarRef::Local("tn".into())), Stmt::AttrNode(Expr::Var("tn".into()), vec![("kind".into(), Expr::Str("triple".into())), ("fst".into(), text("x")), ("snd".into(), text("y")), ("thd".into(), text("z"))])],
+        ));
+    } else {
+        let n = r.range(1050, 1300);
+        source = (0..n).map(|i| format!("v{}\n", i)).collect::<String>();
+        // the index of a statement is one more than the index of the statement before it
+        prog.stanzas.push(st("(module . (expression_statement) @first)", vec![Stmt::Let(VarRef::Scoped(cap("first"), "index".into()), Expr::Int(0))]));
+        prog.stanzas.push(st(
+            "(module (expression_statement) @prev . (expression_statement) @stmt)",
+            vec![Stmt::Let(VarRef::Scoped(cap("stmt"), "index".into()), call("plus", vec![sc("prev", "index"), Expr::Int(1)]))],
+        ));
+        // one node per statement, in source order
+        prog.stanzas.push(st(
+            "(module (expression_statement)+ @stmts)",
+            vec![Stmt::For(
+                "stmt".into(),
+                cap("stmts"),
+                vec![
+                    Stmt::Node(VarRef::Local("en".into())),
+                    Stmt::AttrNode(Expr::Var("en".into()), vec![("kind".into(), Expr::Str("statement".into())), ("index".into(), Expr::Scoped(Box::new(Expr::Var("stmt".into())), "index".into()))]),
+                ],
+            )],
+        ));
+        // the module knows the index of its last statement and records it on its node
+        prog.stanzas.push(st(
+            "(module (expression_statement) @last .) @mod",
+            vec![Stmt::Let(VarRef::Scoped(cap("mod"), "last".into()), sc("last", "index"))],
+        ));
+        prog.stanzas.push(st(
+            "(module (expression_statement)+ @_stmts) @mod",
+            vec![
+                Stmt::Node(VarRef::Scoped(cap("mod"), "mnode".into())),
+                Stmt::AttrNode(sc("mod", "mnode"), vec![("kind".into(), Expr::Str("module".into())), ("last".into(), sc("mod", "last"))]),
+            ],
+        ));
+        r.shuffle(&mut prog.stanzas);
+    }
+    Case { prog, source, globs: Vec::new(), hash_seed: rng::mix(seed, 0xc08), debug: false }
+}
+
 pub fn make_case(ctx: &ShardCtx, i: u64) -> Case {
     let seed = ctx.run_seed(i);
     let mut r = Rng::sub(seed, "plan");
+    if r.chance(1, 60) {
+        return heavy_case(seed, &mut r);
+    }
     let (mut stanzas, inherits) = groups(&mut Rng::sub(seed, "groups"));
     let mut prog = Prog::default();
     let mut globs = Vec::new();
@@ -745,6 +824,12 @@ pub fn run_shard(ctx: &ShardCtx, rep: &mut Report) {
         }
         if case.debug {
             rep.count("probe.debug_attributes_configured");
+        }
+        if case.source.starts_with("v0\nv1\n") && case.prog.stanzas.len() == 2 && st.identity == "ok" {
+            rep.count("probe.thousands_of_matches_in_progress");
+        }
+        if case.source.starts_with("v0\nv1\n") && case.prog.stanzas.len() == 5 && st.identity == "ok" {
+            rep.count("probe.chain_of_a_thousand_lazy_values");
         }
         if case.prog.stanzas.iter().any(|s| s.query == "_ @w") {
             rep.count("probe.bare_wildcard_stanza");
